@@ -435,3 +435,206 @@ class GateMonitor(WireTracker):
             out.append((sid, st["ce_ok"], st["ce_in"][0] if st["ce_in"] else None, st["cea_seen"], st["traffic"],
                         bool(st["must_close"]), st["env_closed"], min(cap, int(now - st["t0"])) if pending else -1))
         return tuple(sorted(out))
+
+
+class RouteMonitor(WireTracker):
+    """C08: a request on a ready connection reaches exactly the matching application, else the specified error."""
+    ACR_REQUIRED = (263, 264, 296, 283, 480, 485)
+
+    def __init__(self, sc):
+        super().__init__(sc)
+        self.reqs = {}          # (sid, hbh, e2e) -> dict(expect=..., delivered=[], answered=[])
+        self.ready = {}         # sid -> bool (CE success as seen by the environment)
+        self.order = []
+
+    def served_realms(self):
+        cfg = self.sc.cfg
+        realms = {cfg.get("node", {}).get("realm", env.NODE_REALM)}
+        for a in cfg.get("apps", []):
+            for pi in a.get("peers", []):
+                realms.add(cfg["peers"][pi].get("realm", env.NODE_REALM))
+                realms.update(a.get("realms", []))
+        for pc in cfg.get("peers", []):
+            if pc.get("default"):
+                realms.add(pc.get("realm", env.NODE_REALM))
+        return realms
+
+    def expected(self, s, f):
+        """Reference routing decision computed from the configuration only."""
+        cfg = self.sc.cfg
+        if f.h.code == 271 and any(f.get(c) is None for c in self.ACR_REQUIRED):
+            return ("error", 5005)
+        realm = f.get(283)
+        if realm is None:
+            return ("dontcare", None)
+        realm = realm.decode()
+        if realm not in self.served_realms():
+            return ("error", 3003)
+        peer_i = next((i for i, pc in enumerate(cfg["peers"]) if pc["name"] == s.host), None)
+        for ai, a in enumerate(cfg.get("apps", [])):
+            if a["id"] != f.h.app:
+                continue
+            # an application is configured per (realm, peer): a peer serves its own realm plus the application's additional realms
+            if peer_i in a.get("peers", []) and realm in ({cfg["peers"][peer_i].get("realm", env.NODE_REALM)} | set(a.get("realms", []))):
+                if a.get("behaviour") == "raise":
+                    return ("deliver+error", ai, 5012)
+                return ("deliver", ai)
+        return ("error", 3007)
+
+    def step(self):
+        sc = self.sc
+        vs = []
+        socks = {s.fs.sid: s for s in sc.socks}
+        for ev in self.events():
+            k = ev[0]
+            if k == "in":
+                t, sid, f = ev[1], ev[2], ev[3]
+                s = socks.get(sid)
+                if s is None or not f.h.is_request:
+                    continue
+                if f.h.code in (257, 280, 282):
+                    self.reqs[(sid, f.h.hbh, f.h.e2e)] = {"expect": ("base",), "delivered": [], "answers": [], "f": f}
+                    continue
+                conn = sc.nw.conn_of(s.fs)
+                ready = self.ready.get(sid, False)
+                self.reqs[(sid, f.h.hbh, f.h.e2e)] = {"expect": self.expected(s, f) if ready else ("notready",), "delivered": [], "answers": [], "f": f}
+                self.order.append((sid, f.h.hbh, f.h.e2e))
+            elif k == "out":
+                t, sid, f = ev[1], ev[2], ev[3]
+                if not f.h.is_request and f.h.code == 257 and f.result_code == 2001:
+                    self.ready[sid] = True
+                if f.h.is_request and f.h.code == 282:
+                    self.ready[sid] = False
+                r = self.reqs.get((sid, f.h.hbh, f.h.e2e))
+                if r is not None and not f.h.is_request:
+                    r["answers"].append(f)
+                    if f.h.code == 282:
+                        self.ready[sid] = False       # DPA sent: the connection is leaving service
+            elif k == "handle_request":
+                t, app_i, hbh, e2e = ev[1], ev[2], ev[3], ev[4]
+                hit = [key for key in self.reqs if key[1] == hbh and key[2] == e2e]
+                for key in hit:
+                    self.reqs[key]["delivered"].append(app_i)
+                if not hit:
+                    vs.append(("route:application-received-a-request-nobody-sent", f"hbh={hbh:#x} e2e={e2e:#x} app {app_i}"))
+            elif k in ("env_eof", "env_reset", "close"):
+                self.ready[ev[2]] = False
+        # judge at quiescence every request not yet judged
+        for key, r in self.reqs.items():
+            if len(r["delivered"]) > 1 and not r.get("dup_reported"):
+                r["dup_reported"] = True
+                vs.append(("route:request-delivered-more-than-once", f"socket {key[0]} {r['f']!r}: delivered to {r['delivered']}"))
+            if r.get("judged"):
+                continue
+            r["judged"] = True
+            exp = r["expect"]
+            f = r["f"]
+            desc = f"socket {key[0]} {f!r} realm={f.get(283)}"
+            if exp[0] == "base":
+                if r["delivered"]:
+                    vs.append((f"route:base-protocol-request-delivered-to-application:{cname(f.h.code)}", f"{desc}: delivered to {r['delivered']}"))
+                continue
+            if exp[0] in ("notready", "dontcare"):
+                continue
+            if exp[0] == "deliver":
+                if r["delivered"] != [exp[1]]:
+                    vs.append((f"route:matching-request-not-delivered-exactly-once-to-its-application:got={r['delivered']}:want=[{exp[1]}]",
+                               f"{desc}: delivered to {r['delivered']}, answers {r['answers']}"))
+                elif r["answers"] and sc.nw.apps[exp[1]].behaviour == "hold":
+                    vs.append((f"route:node-answered-a-delivered-request-itself:rc={r['answers'][0].result_code}", f"{desc}: {r['answers']}"))
+            elif exp[0] == "deliver+error":
+                if r["delivered"] != [exp[1]] or len(r["answers"]) != 1 or r["answers"][0].result_code != exp[2]:
+                    vs.append((f"route:handler-failure-not-answered-{exp[2]}", f"{desc}: delivered {r['delivered']} answers {r['answers']}"))
+            else:
+                want = exp[1]
+                got = [a.result_code for a in r["answers"]]
+                if r["delivered"]:
+                    vs.append((f"route:request-that-must-be-rejected-({want})-reached-an-application", f"{desc}: delivered to {r['delivered']}"))
+                if got != [want]:
+                    vs.append((f"route:wrong-error-answer:want={want}:got={got}", f"{desc}: answers {r['answers']}"))
+                elif want == 5005:
+                    fa = r["answers"][0].getall(279)
+                    missing = sorted((c, 0) for c in self.ACR_REQUIRED if f.get(c) is None)
+                    listed = sorted((c, v) for p in fa for c, fl, v, pl in rc.dec_avps(p))
+                    if listed != missing:
+                        vs.append(("route:failed-avp-does-not-list-exactly-the-missing-avps", f"{desc}: listed {listed}, missing {missing}"))
+        return vs
+
+    def state(self):
+        return (tuple(sorted(self.ready.items())), len(self.reqs))
+
+
+class RetransMonitor(WireTracker):
+    """C17: T-flagged repeats of already answered (origin, end-to-end) are rejected 5012; nothing else is."""
+
+    def __init__(self, sc):
+        super().__init__(sc)
+        self.W = sc.cfg.get("node", {}).get("retransmit_queue_size", 10240)
+        self.hist_all = {}      # origin -> list of e2e of every answer transmitted to it (incl. the node's own rejections)
+        self.hist_app = {}      # origin -> list of e2e of answers that were not duplicate rejections
+        self.reqs = {}          # (sid, hbh, e2e) -> dict
+        self.ready = {}
+
+    def step(self):
+        vs = []
+        for ev in self.events():
+            k = ev[0]
+            if k == "in":
+                t, sid, f = ev[1], ev[2], ev[3]
+                if not f.h.is_request or f.h.code in (257, 280, 282):
+                    continue
+                origin = f.get(264)
+                is_T = bool(f.h.flags & 0x10)
+                a = self.hist_all.get(origin, [])[-self.W:]
+                b = self.hist_app.get(origin, [])[-self.W:]
+                in_a, in_b = f.h.e2e in a, f.h.e2e in b
+                ever = f.h.e2e in self.hist_all.get(origin, [])
+                if is_T and in_a and in_b:
+                    exp = "reject"
+                elif not is_T or not ever or (not in_a and not in_b):
+                    exp = "deliver"     # no flag, never answered, or answered but no longer among the W most recent answers
+                else:
+                    exp = "dontcare"    # the two ways of counting "most recent answers" disagree
+                self.reqs[(sid, f.h.hbh, f.h.e2e)] = {"f": f, "exp": exp, "delivered": 0, "answers": [], "origin": origin, "T": is_T,
+                                                      "ready": self.ready.get(sid, False), "ever": ever}
+            elif k == "out":
+                t, sid, f = ev[1], ev[2], ev[3]
+                if not f.h.is_request and f.h.code == 257 and f.result_code == 2001:
+                    self.ready[sid] = True
+                if f.h.is_request:
+                    continue
+                r = self.reqs.get((sid, f.h.hbh, f.h.e2e))
+                if r is None:
+                    continue
+                r["answers"].append(f)
+                self.hist_all.setdefault(r["origin"], []).append(f.h.e2e)
+                rejected = r["T"] and f.result_code == 5012 and r["delivered"] == 0
+                if not rejected:
+                    self.hist_app.setdefault(r["origin"], []).append(f.h.e2e)
+            elif k == "handle_request":
+                t, app_i, hbh, e2e = ev[1], ev[2], ev[3], ev[4]
+                for key, r in self.reqs.items():
+                    if key[1] == hbh and key[2] == e2e:
+                        r["delivered"] += 1
+        for key, r in self.reqs.items():
+            if r.get("judged") or not r["ready"]:
+                continue
+            r["judged"] = True
+            f = r["f"]
+            desc = (f"{f!r} origin={r['origin']} T={r['T']}; answers sent to that origin so far (all/app): "
+                    f"{[hex(x) for x in self.hist_all.get(r['origin'], [])]}/{[hex(x) for x in self.hist_app.get(r['origin'], [])]} window {self.W}")
+            if r["exp"] == "reject":
+                if r["delivered"] or [a.result_code for a in r["answers"]] != [5012]:
+                    vs.append(("retransmit:T-flagged-duplicate-of-answered-request-not-rejected-5012",
+                               f"{desc}: delivered {r['delivered']} answers {r['answers']}"))
+            elif r["exp"] == "deliver":
+                if r["delivered"] != 1:
+                    why = "no-T-flag" if not r["T"] else ("identifiers-never-answered" if f.h.e2e not in self.hist_all.get(r["origin"], [])[:-1] and
+                                                          f.h.e2e not in [a.h.e2e for a in r["answers"]][:0] and not r.get("ever") else "evicted-from-window")
+                    vs.append((f"retransmit:request-wrongly-treated-as-duplicate:{why}",
+                               f"{desc}: delivered {r['delivered']} answers {r['answers']}"))
+        return vs
+
+    def state(self):
+        return (tuple(sorted((o, tuple(h[-self.W - 1:])) for o, h in self.hist_all.items())),
+                tuple(sorted((o, tuple(h[-self.W - 1:])) for o, h in self.hist_app.items())), len(self.reqs))
